@@ -194,10 +194,11 @@ class Program:
                 m["unit"] = unit
                 self.mir.setdefault(unit, []).append(m)
         # helper normal form: functions that are not on the pinned list are inlined into their callers
-        from .alias import apply_aliases, apply_field_groups
+        from .alias import apply_aliases, apply_field_groups, apply_arg_fields
         from .inline import inline_program
         apply_aliases(self)
         apply_field_groups(self)
+        apply_arg_fields(self)
         inline_program(self)
 
     def fn(self, path, unit=None):
@@ -356,7 +357,7 @@ def normalise_tree(n):
         if r is not None:
             return r
     if k == "match" and n.get("src", "").startswith("Normal"):
-        r = control.match_bools(n) or control.match_guards(n)
+        r = control.match_bools(n) or control.match_guards(n) or control.entry_match(n)
         if r is not None:
             return normalise_tree(r)
     if k == "mcall":
@@ -398,6 +399,12 @@ def normalise_tree(n):
         if rty.endswith("string::String"):
             return dict(n, name="push_str", callee="std::string::String::push_str", rcallee=None,
                         args=[{"k": "addr", "ty": "&str", "sp": sp, "e": fmt}], from_write_fmt=True)
+    # `if !c { A } else { B }`  ==  `if c { B } else { A }`
+    if k == "if" and isinstance(n.get("cond"), dict) and n["cond"].get("k") == "un" and n["cond"].get("op") == "!" \
+            and n.get("else") is not None and n["cond"].get("ty") == "bool":
+        n = dict(n, cond=n["cond"]["e"], then=n["else"] if n["else"].get("k") == "block" else
+                 {"k": "block", "stmts": [], "expr": n["else"], "sp": n["else"].get("sp"), "ty": n.get("ty")},
+                 **{"else": n["then"], "negated_swapped": True})
     if k == "if" and isinstance(n.get("cond"), dict) and n["cond"].get("k") == "letexpr":
         r = _case_of_case(n)
         if r is not None:
